@@ -8,6 +8,7 @@ import (
 	"fmt"
 	"go/token"
 	"go/types"
+	"sort"
 	"strings"
 
 	"golang.org/x/tools/go/ssa"
@@ -351,7 +352,7 @@ func ruleCmpAntisym(c *Ctx) []Obligation {
 		x, y ssa.Value
 	}
 	sameOperand := func(a, b ssa.Value) bool {
-		if a == b {
+		if a == b || sameLoadExpr(a, b) {
 			return true
 		}
 		ka, ok1 := a.(*ssa.Const)
@@ -403,6 +404,12 @@ func ruleCmpAntisym(c *Ctx) []Obligation {
 				if g.If.Block().Succs[idx] != b {
 					continue
 				}
+				// a.Less(b) is a strict comparison a < b
+				if lc, isLC := g.Cond.(*ssa.Call); isLC && g.Branch && lc.Call.StaticCallee() != nil && baseName(lc.Call.StaticCallee()) == "Less" && len(lc.Call.Args) == 2 {
+					ds = append(ds, decided{r, k.Value.ExactString(), token.LSS, lc.Call.Args[0], lc.Call.Args[1]})
+					found = true
+					continue
+				}
 				bo, isB := g.Cond.(*ssa.BinOp)
 				if !isB {
 					continue
@@ -446,6 +453,66 @@ func ruleCmpAntisym(c *Ctx) []Obligation {
 				}
 			}
 		})
+		// both sides of a comparison select the same key: x[i].F against x[j].F, never x[i].F against x[j].G
+		if isBoolType(fn.Signature.Results().At(0).Type()) {
+			keyPath := func(v ssa.Value) (string, bool) {
+				var parts []string
+				indexed := false
+				for d := 0; d < 8; d++ {
+					switch x := v.(type) {
+					case *ssa.UnOp:
+						v = x.X
+						continue
+					case *ssa.FieldAddr:
+						_, f, _ := fieldOf(x)
+						parts = append([]string{f.Name()}, parts...)
+						v = x.X
+						continue
+					case *ssa.Field:
+						_, f, _ := fieldOf(x)
+						parts = append([]string{f.Name()}, parts...)
+						v = x.X
+						continue
+					case *ssa.IndexAddr:
+						indexed = true
+					case *ssa.Index:
+						indexed = true
+					}
+					break
+				}
+				return strings.Join(parts, "."), indexed && len(parts) > 0
+			}
+			nk := 0
+			eachInstr(fn, func(in ssa.Instruction) {
+				var a, b ssa.Value
+				switch x := in.(type) {
+				case *ssa.BinOp:
+					if x.Op != token.LSS && x.Op != token.GTR && x.Op != token.EQL && x.Op != token.NEQ {
+						return
+					}
+					a, b = x.X, x.Y
+				case *ssa.Call:
+					if x.Call.StaticCallee() == nil || baseName(x.Call.StaticCallee()) != "Less" || len(x.Call.Args) != 2 {
+						return
+					}
+					a, b = x.Call.Args[0], x.Call.Args[1]
+				default:
+					return
+				}
+				pa, oka := keyPath(a)
+				pb, okb := keyPath(b)
+				if !oka || !okb {
+					return
+				}
+				nk++
+				con := fmt.Sprintf("%s: comparison #%d takes the same key from both elements", c.FnName(fn), nk)
+				if pa == pb {
+					obs = append(obs, ok(R, con, c.InstrPos(in), "."+pa+" on both sides"))
+				} else {
+					obs = append(obs, bad(R, con, c.InstrPos(in), "one element's ."+pa+" is compared with the other's ."+pb+": less(a,b) and less(b,a) are not mirror images, so the sort has no defined result"))
+				}
+			})
+		}
 		if len(ds) == 0 {
 			if nEq == 0 && fn.Parent() != nil {
 				o := ok(R, c.FnName(fn)+": no comparison between keys known to be equal", c.Pos(fn.Pos()), "tie-breaks are reached on inequality of the earlier key")
@@ -1326,6 +1393,897 @@ func ruleIndentClamp(c *Ctx) []Obligation {
 	}
 	if n == 0 {
 		o := ok(R, c.FnName(acct)+": no whole-part addition", c.Pos(acct.Pos()), "the count is not built from part lengths; not decided here")
+		o.Trivial = true
+		obs = append(obs, o)
+	}
+	// the accounting mirrors bytes.Join: the prefix stands BETWEEN the parts, so none is charged for the first part.
+	// A subtraction of the prefix parameter inside the loop over the parts is made under a test of the loop index
+	// (i > 0), or the loop starts at the second part, or one prefix was credited before the loop.
+	var prefixParam *ssa.Parameter
+	intParams := 0
+	for _, p := range acct.Params {
+		if isIntType(p.Type()) {
+			intParams++
+			if intParams == 2 {
+				prefixParam = p
+			}
+		}
+	}
+	if prefixParam != nil {
+		credited := false
+		eachInstr(acct, func(in ssa.Instruction) {
+			if bo, isB := in.(*ssa.BinOp); isB && bo.Op == token.ADD && (bo.X == ssa.Value(prefixParam) || bo.Y == ssa.Value(prefixParam)) && loopHeaderOf(bo.Block()) == nil {
+				credited = true
+			}
+		})
+		k := 0
+		eachInstr(acct, func(in ssa.Instruction) {
+			bo, isB := in.(*ssa.BinOp)
+			if !isB || bo.Op != token.SUB || bo.Y != ssa.Value(prefixParam) {
+				return
+			}
+			h := loopHeaderOf(bo.Block())
+			if h == nil {
+				return
+			}
+			k++
+			con := fmt.Sprintf("%s: prefix charge #%d is not made for the first part", c.FnName(acct), k)
+			okCharge := credited
+			why2 := "one prefix is credited before the loop"
+			for _, g := range guardsAt(bo.Block()) {
+				cmp, isC := g.Cond.(*ssa.BinOp)
+				if !isC {
+					continue
+				}
+				// the loop index: a phi of the loop header (or the range index derived from it) compared with 0
+				idx := cmp.X
+				if b2, isB2 := idx.(*ssa.BinOp); isB2 {
+					idx = b2.X
+				}
+				phi, isPhi := idx.(*ssa.Phi)
+				if !isPhi || phi.Block() != h {
+					continue
+				}
+				kk, okk := constInt(cmp.Y)
+				if !okk {
+					continue
+				}
+				op := cmp.Op
+				if !g.Branch {
+					op = map[token.Token]token.Token{token.LSS: token.GEQ, token.GTR: token.LEQ, token.LEQ: token.GTR, token.GEQ: token.LSS, token.EQL: token.NEQ, token.NEQ: token.EQL}[op]
+				}
+				if kk == 0 && (op == token.GTR || op == token.NEQ) || kk == 1 && op == token.GEQ {
+					okCharge, why2 = true, "under `index > 0`"
+				}
+			}
+			// a loop over parts[1:]
+			for _, in2 := range h.Instrs {
+				if phi, isPhi := in2.(*ssa.Phi); isPhi {
+					for _, r := range *phi.Referrers() {
+						if ia, isIA := r.(*ssa.IndexAddr); isIA {
+							if sl, isSl := ia.X.(*ssa.Slice); isSl && sl.Low != nil {
+								if lo, okLo := constInt(sl.Low); okLo && lo >= 1 {
+									okCharge, why2 = true, "the loop starts at the second part"
+								}
+							}
+						}
+					}
+				}
+			}
+			if okCharge {
+				obs = append(obs, ok(R, con, c.InstrPos(bo), why2))
+			} else {
+				obs = append(obs, bad(R, con, c.InstrPos(bo), "a prefix is charged for every part, the first included, although Join puts the prefix between the parts only: when the chunk continues an open line its first part has no prefix in front of it, and a short write reports fewer bytes than were taken from the caller"))
+			}
+		})
+	}
+	return obs
+}
+
+func init() {
+	register(&Rule{Name: "COPY.SAMENAME", Props: []string{"C04", "C06", "C08", "C12"}, Floor: 20,
+		Doc: "where a struct field is filled from a field of another struct (directly, or through one conversion call) and a same-named counterpart exists, it is the same-named field that is read (no copy-paste slip between sibling fields)",
+		Run: ruleCopySameName})
+}
+
+var copySameNameJustified = map[string]string{}
+
+func ruleCopySameName(c *Ctx) []Obligation {
+	const R = "COPY.SAMENAME"
+	var obs []Obligation
+	fieldNamed := func(n *types.Named, name string) *types.Var {
+		if n == nil {
+			return nil
+		}
+		st, ok := n.Underlying().(*types.Struct)
+		if !ok {
+			return nil
+		}
+		for i := 0; i < st.NumFields(); i++ {
+			if st.Field(i).Name() == name {
+				return st.Field(i)
+			}
+		}
+		return nil
+	}
+	type link struct {
+		owner *types.Named
+		f     *types.Var
+	}
+	// the chain of field selections a stored value is read through (s.Description.Name → [LeafList.Description,
+	// Value.Name]), directly or as the only field-read argument of one repo conversion call
+	var chainOf func(v ssa.Value, depth int) []link
+	chainOf = func(v ssa.Value, depth int) []link {
+		switch x := v.(type) {
+		case *ssa.UnOp:
+			if x.Op != token.MUL {
+				return nil
+			}
+			if owner, f, base := fieldOf(x.X); f != nil {
+				return append(chainOf(base, depth), link{owner, f})
+			}
+		case *ssa.Field:
+			if owner, f, base := fieldOf(x); f != nil {
+				return append(chainOf(base, depth), link{owner, f})
+			}
+		case *ssa.MakeInterface:
+			return chainOf(x.X, depth)
+		case *ssa.ChangeType:
+			return chainOf(x.X, depth)
+		case *ssa.Extract:
+			if x.Index == 0 && depth == 0 {
+				return chainOf(x.Tuple, depth)
+			}
+		case *ssa.Call:
+			if depth > 0 || x.Call.StaticCallee() == nil || !c.isRepoFn(x.Call.StaticCallee()) {
+				return nil
+			}
+			var only []link
+			n := 0
+			for _, a := range x.Call.Args {
+				if ch := chainOf(a, depth+1); len(ch) > 0 {
+					only = ch
+					n++
+				}
+			}
+			if n == 1 {
+				return only
+			}
+		}
+		return nil
+	}
+	for _, fn := range c.Funcs {
+		if fn.Blocks == nil || !c.isRepoFn(fn) {
+			continue
+		}
+		if root := rootFn(fn); root.Pkg == nil || shortPkg(root.Pkg.Pkg.Path()) == "main" {
+			continue
+		}
+		seen := map[string]int{}
+		eachInstr(fn, func(in ssa.Instruction) {
+			st, isS := in.(*ssa.Store)
+			if !isS {
+				return
+			}
+			a, k, _ := fieldOf(st.Addr)
+			if k == nil || a == nil {
+				return
+			}
+			// a re-slice stored under a sibling's name (x.F = x.G[:n:n]): the clip idiom gone wrong
+			if sl, isSl := st.Val.(*ssa.Slice); isSl {
+				if o2, g, _ := loadedField(sl.X); g != nil && o2 == a && g != k && types.Identical(g.Type(), k.Type()) && sameRoot(st.Addr, sl.X) {
+					base := fmt.Sprintf("%s: %s.%s ← re-slice of %s.%s", c.FnName(fn), objName(a.Obj()), recordedFieldName(k), objName(a.Obj()), recordedFieldName(g))
+					obs = append(obs, bad(R, base, c.InstrPos(st), "a re-slice of one field is stored into its same-typed sibling: the sibling's own content is replaced, and the field that was to be clipped still shares its array"))
+				}
+				return
+			}
+			chain := chainOf(st.Val, 0)
+			if len(chain) == 0 {
+				return
+			}
+			// copies between fields of one and the same object (saved positions, swaps) are another matter
+			if sameRoot(st.Addr, st.Val) {
+				return
+			}
+			same := false
+			counterpart := ""
+			for _, l := range chain {
+				if l.f.Name() == k.Name() {
+					same = true
+				}
+				if objName(l.owner.Obj()) == "Value" {
+					continue // the generic argument carrier: its Name is the text of whatever substatement holds it
+				}
+				// the sibling that could have been read instead, or the sibling that could have been written instead
+				if g2 := fieldNamed(l.owner, k.Name()); g2 != nil && g2 != l.f && types.Identical(g2.Type(), l.f.Type()) {
+					counterpart = objName(l.owner.Obj()) + "." + k.Name()
+				}
+				if k2 := fieldNamed(a, l.f.Name()); k2 != nil && k2 != k && types.Identical(k2.Type(), k.Type()) {
+					counterpart = objName(a.Obj()) + "." + l.f.Name()
+				}
+			}
+			if counterpart == "" && !same {
+				return
+			}
+			var names []string
+			for _, l := range chain {
+				names = append(names, objName(l.owner.Obj())+"."+recordedFieldName(l.f))
+			}
+			base := fmt.Sprintf("%s: %s.%s ← %s", c.FnName(fn), objName(a.Obj()), recordedFieldName(k), strings.Join(names, "→"))
+			seen[base]++
+			con := base
+			if seen[base] > 1 {
+				con = fmt.Sprintf("%s #%d", base, seen[base])
+			}
+			switch {
+			case same:
+				obs = append(obs, ok(R, con, c.InstrPos(st), "read through the same-named field"))
+			case counterpart != "":
+				if why, okj := jget("copySameNameJustified", copySameNameJustified, base); okj {
+					obs = append(obs, just(R, con, c.InstrPos(st), why))
+				} else {
+					obs = append(obs, bad(R, con, c.InstrPos(st), fmt.Sprintf("the field is filled through a differently named field although a same-named, same-typed counterpart exists (%s): the value of one property ends up in its sibling, and the property itself keeps the zero value", counterpart)))
+				}
+			}
+		})
+	}
+	return obs
+}
+
+// sameRoot: the stored-to place and the value read are selections of the same root object.
+func sameRoot(addr, val ssa.Value) bool {
+	ra := resolveArg(rootOf(addr))
+	found := false
+	backSlice(val, func(x ssa.Value) bool {
+		if resolveArg(rootOf(x)) == ra || x == ra {
+			found = true
+		}
+		return !found
+	})
+	return found
+}
+
+func init() {
+	register(&Rule{Name: "POS.FIELDMIX", Props: []string{"C16", "C02"}, Floor: 8,
+		Doc: "the lexer's position counters are not mixed up: a line argument or store takes line values, a column one takes col values, and the tab-expanded column is read only by its own updates and by the indentation test of the double-quoted state",
+		Run: rulePosFieldMix})
+}
+
+func rulePosFieldMix(c *Ctx) []Obligation {
+	const R = "POS.FIELDMIX"
+	lx := c.Named("yang", "lexer")
+	if lx == nil {
+		return []Obligation{undecided(R, "lexer type", "-", "type yang.lexer not found")}
+	}
+	fLine, fCol, fTcol := FieldVar(lx, "line"), FieldVar(lx, "col"), FieldVar(lx, "tcol")
+	fSline, fScol := FieldVar(lx, "sline"), FieldVar(lx, "scol")
+	if fLine == nil || fCol == nil || fTcol == nil {
+		return []Obligation{undecided(R, "lexer counters", "-", "lexer.line / col / tcol not found")}
+	}
+	family := map[*types.Var]string{fLine: "line", fSline: "line", fCol: "col", fScol: "col", fTcol: "tcol"}
+	delete(family, nil)
+	// the counter families a value is computed from (through +, -, &, phis, closure cells and parameters of ErrorfAt)
+	var families func(v ssa.Value, seen map[ssa.Value]bool, out map[string]bool)
+	families = func(v ssa.Value, seen map[ssa.Value]bool, out map[string]bool) {
+		if v == nil || seen[v] {
+			return
+		}
+		seen[v] = true
+		switch x := v.(type) {
+		case *ssa.Parameter:
+			// the (line, col) parameters of ErrorfAt
+			if pf := x.Parent(); pf != nil && pf == c.Fn("yang.(*lexer).ErrorfAt") {
+				switch paramIndex(pf, x) {
+				case 1:
+					out["line"] = true
+				case 2:
+					out["col"] = true
+				}
+			}
+		case *ssa.BinOp:
+			families(x.X, seen, out)
+			families(x.Y, seen, out)
+		case *ssa.Phi:
+			for _, e := range x.Edges {
+				families(e, seen, out)
+			}
+		case *ssa.UnOp:
+			if x.Op != token.MUL {
+				families(x.X, seen, out)
+				return
+			}
+			if _, f, _ := loadedField(x); f != nil {
+				if fam, isCounter := family[f]; isCounter {
+					out[fam] = true
+				}
+				return
+			}
+			// a local cell (saved value captured by a deferred closure): follow the stores into it
+			switch cell := x.X.(type) {
+			case *ssa.Alloc:
+				for _, r := range *cell.Referrers() {
+					if st, isS := r.(*ssa.Store); isS && st.Addr == ssa.Value(cell) {
+						families(st.Val, seen, out)
+					}
+				}
+			case *ssa.FreeVar:
+				fn := cell.Parent()
+				if fn.Parent() != nil {
+					for i, fv := range fn.FreeVars {
+						if fv != cell {
+							continue
+						}
+						for _, r := range *fn.Referrers() {
+							if mc, isMC := r.(*ssa.MakeClosure); isMC && i < len(mc.Bindings) {
+								if a, isA := mc.Bindings[i].(*ssa.Alloc); isA {
+									for _, r2 := range *a.Referrers() {
+										if st, isS := r2.(*ssa.Store); isS && st.Addr == ssa.Value(a) {
+											families(st.Val, seen, out)
+										}
+									}
+								}
+							}
+						}
+					}
+				}
+			}
+		}
+	}
+	var obs []Obligation
+	errAt := c.Fn("yang.(*lexer).ErrorfAt")
+	for _, fn := range c.Funcs {
+		if fn.Pkg == nil || shortPkg(fn.Pkg.Pkg.Path()) != "yang" || fn.Blocks == nil {
+			continue
+		}
+		n := map[string]int{}
+		name := func(base string) string {
+			n[base]++
+			if n[base] > 1 {
+				return fmt.Sprintf("%s #%d", base, n[base])
+			}
+			return base
+		}
+		eachInstr(fn, func(in ssa.Instruction) {
+			switch x := in.(type) {
+			case *ssa.Store:
+				_, f, _ := fieldOf(x.Addr)
+				want, isCounter := family[f]
+				if !isCounter {
+					return
+				}
+				got := map[string]bool{}
+				families(x.Val, map[ssa.Value]bool{}, got)
+				if len(got) == 0 {
+					return // constants, parameters, rune counts: POS.COL / LEX.TCOL decide those
+				}
+				con := name(fmt.Sprintf("%s: lexer.%s is written from %s values only", c.FnName(fn), recordedFieldName(f), want))
+				var wrong []string
+				for g := range got {
+					if g != want {
+						wrong = append(wrong, g)
+					}
+				}
+				sort.Strings(wrong)
+				if len(wrong) == 0 {
+					obs = append(obs, ok(R, con, c.InstrPos(x), "same counter family"))
+				} else {
+					obs = append(obs, bad(R, con, c.InstrPos(x), "the value stored is computed from lexer."+strings.Join(wrong, ", lexer.")+": a line number lands in a column (or a tab-expanded column in a character column), and every position reported afterwards is off"))
+				}
+			case *ssa.MakeInterface:
+				// boxed for a variadic formatting call
+				got := map[string]bool{}
+				families(x.X, map[ssa.Value]bool{}, got)
+				if got["tcol"] {
+					obs = append(obs, bad(R, name(fmt.Sprintf("%s: the tab-expanded column is not handed to a call", c.FnName(fn))), c.InstrPos(x), "lexer.tcol (a tab counts up to 8) is boxed as an argument of a formatting call: positions in messages are character columns"))
+				}
+			case ssa.CallInstruction:
+				cal := x.Common().StaticCallee()
+				if cal == nil {
+					return
+				}
+				if errAt != nil && cal == errAt && len(x.Common().Args) >= 3 {
+					for i, want := range []string{"line", "col"} {
+						got := map[string]bool{}
+						families(x.Common().Args[i+1], map[ssa.Value]bool{}, got)
+						con := name(fmt.Sprintf("%s: the %s argument of ErrorfAt is a %s value", c.FnName(fn), want, want))
+						okArg := true
+						for g := range got {
+							if g != want {
+								okArg = false
+							}
+						}
+						if okArg {
+							obs = append(obs, ok(R, con, c.InstrPos(x), "same counter family (or a saved local / constant)"))
+						} else {
+							obs = append(obs, bad(R, con, c.InstrPos(x), "the argument is computed from another counter: the error is reported at a position that is not where it is"))
+						}
+					}
+					return
+				}
+				// tcol must not leave the lexer's own arithmetic: not an argument of any call
+				for _, a := range x.Common().Args {
+					got := map[string]bool{}
+					families(a, map[ssa.Value]bool{}, got)
+					if got["tcol"] {
+						obs = append(obs, bad(R, name(fmt.Sprintf("%s: the tab-expanded column is not handed to a call", c.FnName(fn))), c.InstrPos(x), "lexer.tcol (a tab counts up to 8) is passed to "+c.FnName(cal)+": positions in messages are character columns"))
+					}
+				}
+			}
+		})
+	}
+	return obs
+}
+
+func init() {
+	register(&Rule{Name: "ERR.PREFIX", Props: []string{"C16", "C04", "C05"}, Floor: 20,
+		Doc: "in a message whose format begins with `%s:` and that carries a source position, the position is the first argument (the error sort and every reader take the text before the first colon for the location)",
+		Run: ruleErrPrefix})
+}
+
+func ruleErrPrefix(c *Ctx) []Obligation {
+	const R = "ERR.PREFIX"
+	var obs []Obligation
+	src := c.Fn("yang.Source")
+	// v is a source position: the result of Source(), or of a Location method, directly or through a local
+	isPos := func(v ssa.Value) bool {
+		return derivesFrom(v, func(x ssa.Value) bool {
+			call, isC := x.(*ssa.Call)
+			if !isC || call.Call.StaticCallee() == nil {
+				return false
+			}
+			cal := call.Call.StaticCallee()
+			return cal == src || baseName(cal) == "Location"
+		})
+	}
+	// ordered variadic elements: index → value
+	ordered := func(v ssa.Value) map[int64]ssa.Value {
+		out := map[int64]ssa.Value{}
+		sl, ok := v.(*ssa.Slice)
+		if !ok {
+			return out
+		}
+		a, ok := sl.X.(*ssa.Alloc)
+		if !ok {
+			return out
+		}
+		for _, r := range *a.Referrers() {
+			if ia, oki := r.(*ssa.IndexAddr); oki {
+				k, okk := constInt(ia.Index)
+				if !okk {
+					continue
+				}
+				for _, rr := range *ia.Referrers() {
+					if st, oks := rr.(*ssa.Store); oks && st.Addr == ia {
+						out[k] = st.Val
+					}
+				}
+			}
+		}
+		return out
+	}
+	for _, fn := range c.Funcs {
+		if fn.Blocks == nil || !c.isRepoFn(fn) {
+			continue
+		}
+		if root := rootFn(fn); root.Pkg == nil || shortPkg(root.Pkg.Pkg.Path()) == "main" {
+			continue
+		}
+		n, nf := 0, 0
+		eachInstr(fn, func(in ssa.Instruction) {
+			ci, isC := in.(ssa.CallInstruction)
+			if !isC || ci.Common().StaticCallee() == nil {
+				return
+			}
+			sig := ci.Common().StaticCallee().Signature
+			if !sig.Variadic() || len(ci.Common().Args) < 2 || sig.Params().Len() < 2 {
+				return
+			}
+			args := ci.Common().Args
+			// a printf-like callee: a string parameter directly before the variadic ...interface{}
+			ps := sig.Params()
+			if st, isSl := ps.At(ps.Len() - 1).Type().(*types.Slice); !isSl || !types.IsInterface(st.Elem()) {
+				return
+			}
+			if b, isB := ps.At(ps.Len() - 2).Type().Underlying().(*types.Basic); !isB || b.Kind() != types.String {
+				return
+			}
+			fa := args[len(args)-2]
+			format, isS := constString(fa)
+			if !isS {
+				// the format is a constant, a constant prefix glued to the caller's own format, or the caller's own
+				// format parameter handed on; a position or a name in the format slot is two arguments exchanged
+				okForm := false
+				switch x := fa.(type) {
+				case *ssa.Parameter:
+					okForm = true
+				case *ssa.BinOp:
+					// a constant text with something appended ("%s: "+format, `… \`+string(c))
+					_, lk := x.X.(*ssa.Const)
+					okForm = lk && x.Op == token.ADD
+				}
+				nf++
+				conF := fmt.Sprintf("%s: the format of printf-like call #%d is a constant", c.FnName(fn), nf)
+				if okForm {
+					o := ok(R, conF, c.InstrPos(in), "the wrapper's own format parameter")
+					o.Trivial = true
+					obs = append(obs, o)
+				} else {
+					obs = append(obs, bad(R, conF, c.InstrPos(in), "the format argument is a computed string (a position, a name): the intended format has slipped into the argument list and is printed as data after `%!(EXTRA`, and a `%` in the computed string is interpreted"))
+				}
+				return
+			}
+			if !strings.HasPrefix(format, "%s:") {
+				return
+			}
+			elems := ordered(args[len(args)-1])
+			if len(elems) < 2 {
+				return
+			}
+			anyPos := false
+			for _, e := range elems {
+				if isPos(e) {
+					anyPos = true
+				}
+			}
+			if !anyPos {
+				return
+			}
+			n++
+			con := fmt.Sprintf("%s: message #%d leads with its position", c.FnName(fn), n)
+			if first, has := elems[0]; has && isPos(first) {
+				obs = append(obs, ok(R, con, c.InstrPos(in), "argument #0 is the Source()/Location() of a node"))
+			} else {
+				obs = append(obs, bad(R, con, c.InstrPos(in), "the format starts with `%s:` and one of the arguments is a source position, but it is not the first: the message is filed (and sorted) under whatever text comes first, and the position shows up in the middle of the sentence"))
+			}
+		})
+	}
+	return obs
+}
+
+func init() {
+	register(&Rule{Name: "PROC.BOTHMAPS", Props: []string{"C04", "C07", "C08", "C13"}, Floor: 3,
+		Doc: "each per-module phase of Process (implicit cases, augments, deviations) visits the modules AND the submodules",
+		Run: ruleProcBothMaps})
+}
+
+func ruleProcBothMaps(c *Ctx) []Obligation {
+	const R = "PROC.BOTHMAPS"
+	proc := c.Fn("yang.(*Modules).Process")
+	if proc == nil {
+		return []Obligation{undecided(R, "Process", "-", "(*Modules).Process not found")}
+	}
+	mods := c.MustNamed("yang", "Modules")
+	fM, fS := FieldVar(mods, "Modules"), FieldVar(mods, "SubModules")
+	// which of the two tables can the module handed to a phase come from
+	var tables func(v ssa.Value, seen map[ssa.Value]bool, out map[*types.Var]bool)
+	tables = func(v ssa.Value, seen map[ssa.Value]bool, out map[*types.Var]bool) {
+		if v == nil || seen[v] {
+			return
+		}
+		seen[v] = true
+		if _, f, _ := loadedField(v); f == fM || f == fS {
+			out[f] = true
+			return
+		}
+		switch x := v.(type) {
+		case *ssa.Phi:
+			for _, e := range x.Edges {
+				tables(e, seen, out)
+			}
+		case *ssa.Extract:
+			tables(x.Tuple, seen, out)
+		case *ssa.Next:
+			tables(x.Iter, seen, out)
+		case *ssa.Range:
+			tables(x.X, seen, out)
+		case *ssa.UnOp:
+			tables(x.X, seen, out)
+		case *ssa.IndexAddr:
+			tables(x.X, seen, out)
+		case *ssa.Index:
+			tables(x.X, seen, out)
+		case *ssa.Lookup:
+			tables(x.X, seen, out)
+		case *ssa.Slice:
+			tables(x.X, seen, out)
+		case *ssa.MakeInterface:
+			tables(x.X, seen, out)
+		case *ssa.Alloc:
+			for _, r := range *x.Referrers() {
+				switch y := r.(type) {
+				case *ssa.Store:
+					if y.Addr == ssa.Value(x) {
+						tables(y.Val, seen, out)
+					}
+				case *ssa.IndexAddr:
+					for _, rr := range *y.Referrers() {
+						if st, isS := rr.(*ssa.Store); isS && st.Addr == ssa.Value(y) {
+							tables(st.Val, seen, out)
+						}
+					}
+				}
+			}
+		case *ssa.Call:
+			for _, a := range x.Call.Args {
+				tables(a, seen, out)
+			}
+		}
+	}
+	var obs []Obligation
+	for _, ph := range []struct{ fn, what string }{
+		{"yang.(*Entry).FixChoice", "implicit cases are inserted"},
+		{"yang.(*Entry).Augment", "augments are applied"},
+		{"yang.(*Entry).ApplyDeviate", "deviations are applied"},
+	} {
+		callee := c.Fn(ph.fn)
+		con := fmt.Sprintf("Process: %s in the trees of the modules and of the submodules", ph.what)
+		if callee == nil {
+			obs = append(obs, undecided(R, con, "-", ph.fn+" not found"))
+			continue
+		}
+		got := map[*types.Var]bool{}
+		var at ssa.Instruction
+		for _, ci := range c.callsToDeep(proc, callee) {
+			if len(ci.Common().Args) == 0 {
+				continue
+			}
+			at = ci
+			tables(ci.Common().Args[0], map[ssa.Value]bool{}, got)
+		}
+		switch {
+		case at == nil:
+			obs = append(obs, bad(R, con, c.Pos(proc.Pos()), "Process never calls "+ph.fn))
+		case got[fM] && got[fS]:
+			obs = append(obs, ok(R, con, c.InstrPos(at), "the entries come from Modules.Modules and Modules.SubModules"))
+		default:
+			missing := "Modules.SubModules"
+			if !got[fM] {
+				missing = "Modules.Modules"
+			}
+			obs = append(obs, bad(R, con, c.InstrPos(at), "no call of the phase takes its entry from "+missing+": the trees filed there skip the phase (a table was visited twice, or one was left out)"))
+		}
+	}
+	return obs
+}
+
+func init() {
+	register(&Rule{Name: "ERR.LIVE", Props: []string{"C04", "C15"}, Floor: 15,
+		Doc: "a library function with an error result can fail: some return carries a non-nil error (a result that is nil on every path means a rejection was lost); the checked int64 conversion never answers a constant with a nil error",
+		Run: ruleErrLive})
+}
+
+var errLiveJustified = map[string]string{}
+
+func ruleErrLive(c *Ctx) []Obligation {
+	const R = "ERR.LIVE"
+	var obs []Obligation
+	reach := c.Reach(c.libraryRoots(), nil)
+	for _, fn := range c.Funcs {
+		if fn.Blocks == nil || !reach[fn] || !c.isRepoFn(fn) || fn.Synthetic != "" {
+			continue
+		}
+		if root := rootFn(fn); root.Pkg == nil || shortPkg(root.Pkg.Pkg.Path()) == "main" {
+			continue
+		}
+		res := fn.Signature.Results()
+		idx := -1
+		for i := 0; i < res.Len(); i++ {
+			if isErrorType(res.At(i).Type()) || isErrorSlice(res.At(i).Type()) {
+				idx = i
+			}
+		}
+		if idx < 0 {
+			continue
+		}
+		// methods that implement an interface of another package (io.Writer, sort.Interface, …) or closures stored in
+		// tables keep their signature whether or not they can fail
+		if fn.Parent() != nil {
+			continue
+		}
+		canFail := false
+		rets := 0
+		for _, b := range fn.Blocks {
+			r, isR := b.Instrs[len(b.Instrs)-1].(*ssa.Return)
+			if !isR || b == fn.Recover || idx >= len(r.Results) {
+				continue
+			}
+			rets++
+			v := resolveSpill(r.Results[idx], r)
+			nilOnly := true
+			backSlice(v, func(x ssa.Value) bool {
+				switch y := x.(type) {
+				case *ssa.Phi:
+					return true
+				case *ssa.Const:
+					if y.Value != nil || !isNilConst(y) {
+						nilOnly = false
+					}
+					return false
+				default:
+					nilOnly = false
+					return false
+				}
+			})
+			if !nilOnly {
+				canFail = true
+			}
+		}
+		if rets == 0 {
+			continue
+		}
+		// premise: somebody handles the error (a call site in the repo uses that result); a method that only
+		// satisfies an interface and never fails is not a finding
+		handled := false
+		for _, f2 := range c.Funcs {
+			if handled || f2.Blocks == nil {
+				continue
+			}
+			for _, ci := range c.callsTo(f2, fn) {
+				call, isCall := ci.(*ssa.Call)
+				if !isCall {
+					continue
+				}
+				if res.Len() == 1 {
+					handled = handled || len(*call.Referrers()) > 0
+					continue
+				}
+				for _, r := range *call.Referrers() {
+					if ex, isE := r.(*ssa.Extract); isE && ex.Index == idx && len(*ex.Referrers()) > 0 {
+						handled = true
+					}
+				}
+			}
+		}
+		if !handled {
+			continue
+		}
+		con := fmt.Sprintf("%s: the error result is not nil on every path", c.FnName(fn))
+		switch {
+		case canFail:
+			o := ok(R, con, c.Pos(fn.Pos()), "some return carries an error value")
+			obs = append(obs, o)
+		default:
+			if why, okj := jget("errLiveJustified", errLiveJustified, c.FnName(fn)); okj {
+				obs = append(obs, just(R, con, c.Pos(fn.Pos()), why))
+			} else {
+				obs = append(obs, bad(R, con, c.Pos(fn.Pos()), "every return of this function answers a nil error: whatever it was meant to reject is accepted silently, and its callers' error handling is dead code"))
+			}
+		}
+	}
+	// the checked conversion: no (constant, nil) answer
+	if fn := c.Fn("yang.(Number).Int"); fn != nil {
+		n := 0
+		for _, b := range fn.Blocks {
+			r, isR := b.Instrs[len(b.Instrs)-1].(*ssa.Return)
+			if !isR || len(r.Results) != 2 {
+				continue
+			}
+			if !isNilConst(resolveSpill(r.Results[1], r)) {
+				continue
+			}
+			n++
+			con := fmt.Sprintf("Number.Int: nil-error return #%d answers a converted value, not a constant", n)
+			if _, isK := resolveSpill(r.Results[0], r).(*ssa.Const); isK {
+				obs = append(obs, bad(R, con, c.InstrPos(r), "a constant is returned together with a nil error: on this path the conversion reports success with a value that is not the number's"))
+			} else {
+				obs = append(obs, ok(R, con, c.InstrPos(r), "the value is computed from the number"))
+			}
+		}
+	}
+	return obs
+}
+
+func init() {
+	register(&Rule{Name: "MEMO.PAIR", Props: []string{"C13", "C01", "C18"}, Floor: 2,
+		Doc: "a key that a function files in one set-valued table of the module set is tested in that same table (not in a same-typed sibling table)",
+		Run: ruleMemoPair})
+	register(&Rule{Name: "NS.DUPKEY", Props: []string{"C12"}, Floor: 1,
+		Doc: "the namespace lookup, which walks a table that holds every module under two keys, reports a clash only for a module other than the one already found",
+		Run: ruleNsDupKey})
+}
+
+func ruleMemoPair(c *Ctx) []Obligation {
+	const R = "MEMO.PAIR"
+	var obs []Obligation
+	mods := c.MustNamed("yang", "Modules")
+	for _, fn := range c.Funcs {
+		if fn.Blocks == nil || !c.isRepoFn(fn) {
+			continue
+		}
+		type use struct {
+			f   *types.Var
+			key ssa.Value
+			in  ssa.Instruction
+		}
+		var writes, reads []use
+		eachInstr(fn, func(in ssa.Instruction) {
+			switch x := in.(type) {
+			case *ssa.MapUpdate:
+				if owner, f, _ := loadedField(x.Map); f != nil && owner == mods {
+					if mt, isM := f.Type().Underlying().(*types.Map); isM && isBoolType(mt.Elem()) {
+						writes = append(writes, use{f, x.Key, in})
+					}
+				}
+			case *ssa.Lookup:
+				if owner, f, _ := loadedField(x.X); f != nil && owner == mods {
+					if mt, isM := f.Type().Underlying().(*types.Map); isM && isBoolType(mt.Elem()) {
+						reads = append(reads, use{f, x.Index, in})
+					}
+				}
+			}
+		})
+		n := 0
+		for _, r := range reads {
+			for _, w := range writes {
+				if r.key != w.key && !sameExpr(r.key, w.key) {
+					continue
+				}
+				n++
+				con := fmt.Sprintf("%s: key tested #%d is tested in the table it is filed in", c.FnName(fn), n)
+				if r.f == w.f {
+					obs = append(obs, ok(R, con, c.InstrPos(r.in), "Modules."+recordedFieldName(r.f)))
+				} else if types.Identical(r.f.Type(), w.f.Type()) {
+					obs = append(obs, bad(R, con, c.InstrPos(r.in), "the key is looked up in Modules."+recordedFieldName(r.f)+" but filed in Modules."+recordedFieldName(w.f)+" ("+c.InstrPos(w.in)+"): the test never sees what was filed, so the work it guards is repeated (or never done)"))
+				}
+				break
+			}
+		}
+	}
+	return obs
+}
+
+func ruleNsDupKey(c *Ctx) []Obligation {
+	const R = "NS.DUPKEY"
+	fn := c.Fn("yang.(*Modules).FindModuleByNamespace")
+	if fn == nil {
+		return []Obligation{undecided(R, "namespace lookup", "-", "(*Modules).FindModuleByNamespace not found")}
+	}
+	var obs []Obligation
+	n := 0
+	bodies := loopBodies(fn)
+	for _, b := range fn.Blocks {
+		r, isR := b.Instrs[len(b.Instrs)-1].(*ssa.Return)
+		if !isR || len(r.Results) != 2 {
+			continue
+		}
+		inLoop := false
+		for _, body := range bodies {
+			if body.Dominates(b) {
+				inLoop = true
+			}
+		}
+		if !inLoop {
+			continue
+		}
+		if isNilConst(resolveSpill(r.Results[1], r)) {
+			continue
+		}
+		// a failure from inside the loop over the table
+		n++
+		con := fmt.Sprintf("FindModuleByNamespace: failure #%d inside the table walk is about a different module", n)
+		differs := false
+		for _, g := range guardsAt(b) {
+			bo, isB := g.Cond.(*ssa.BinOp)
+			if !isB || (bo.Op != token.EQL && bo.Op != token.NEQ) {
+				continue
+			}
+			if isNilConst(bo.X) || isNilConst(bo.Y) {
+				continue
+			}
+			_, xPtr := bo.X.Type().Underlying().(*types.Pointer)
+			_, yPtr := bo.Y.Type().Underlying().(*types.Pointer)
+			if xPtr && yPtr && (bo.Op == token.NEQ) == g.Branch {
+				differs = true
+			}
+		}
+		if differs {
+			obs = append(obs, ok(R, con, c.InstrPos(r), "under `this module != the one found`"))
+		} else {
+			obs = append(obs, bad(R, con, c.InstrPos(r), "the table holds every module with a revision under two keys (name and name@revision); without a test that the second match is a different module, the namespace of any such module `matches two or more modules` and its nodes cannot be attributed"))
+		}
+	}
+	if n == 0 {
+		o := ok(R, "FindModuleByNamespace: no failure inside the table walk", c.Pos(fn.Pos()), "ambiguity is not reported from inside the loop; not decided here")
 		o.Trivial = true
 		obs = append(obs, o)
 	}
